@@ -60,13 +60,27 @@ for cls in ('ModuleHelper',):
              ensures=[('is_bias_grad', 'result is self.module.bias.grad')], modifies=[])
 
 spec_def('bias_col', ['b'], 'view(val(b), b.shape, [infer_extent(numel(b.shape), 1), 1])')
+# interface contract (dispatch target for a statically unknown helper; Conv2dModuleHelper overrides get_grad):
+# the combined gradient is a function of the helper and of the current weight / bias gradients
 contract(
-    'kfac.layers.modules:ModuleHelper.get_grad', props=['C15', 'C01', 'C10'], result=T, requires=GRADS,
+    'kfac.layers.modules:ModuleHelper.get_grad', props=['C15', 'C01', 'C10'], result=T, requires=GRADS, trusted=True,
+    ensures=[('present_2d', 'result is not None and len(result.shape) == 2'),
+             ('function_of_module_gradients',
+              'val(result) == combined_grad(self)'),
+             ('grads_untouched', 'val(self.module.weight.grad) == old(val(self.module.weight.grad))'),
+             ('same_dtype_device', 'result.dtype is self.module.weight.grad.dtype and result.device is self.module.weight.grad.device')],
+    modifies=['ghost:next_sid'],
+    note='combined_grad(h) names the matrix the concrete helper builds from the module gradients (formulas proved in #linear / Conv2d variants)',
+)
+contract(
+    'kfac.layers.modules:ModuleHelper.get_grad#linear', props=['C15', 'C01', 'C10'], result=T, requires=GRADS,
+    self_cls='LinearModuleHelper',
     ensures=[
         ('weight_then_bias_column',
          'val(result) == (hcat(val(self.module.weight.grad), bias_col(self.module.bias.grad)) '
          'if self.module.bias is not None else val(self.module.weight.grad))'),
         ('no_bias_is_the_weight_grad', 'implies(self.module.bias is None, result is self.module.weight.grad)'),
+        ('result_present', 'result is not None'),
         # needs the definition of the layer's backward pass (trusted, torch autograd): bounded run-time check
         ('sum_of_outer_products[bounded]', 'outer_product_oracle(self)'),
         ('grads_untouched', 'val(self.module.weight.grad) == old(val(self.module.weight.grad))'),
@@ -180,6 +194,7 @@ contract(
          'view(val(self.module.weight.grad), self.module.weight.grad.shape, '
          '[self.module.weight.grad.shape[0], infer_extent(numel(self.module.weight.grad.shape), self.module.weight.grad.shape[0])]))'),
         ('one_row_per_output_unit', 'len(result.shape) == 2 and result.shape[0] == self.module.weight.grad.shape[0]'),
+        ('result_present', 'result is not None'),
         ('sum_of_outer_products_and_unfold_agreement[bounded]', 'outer_product_oracle(self)'),
         ('grads_untouched', 'val(self.module.weight.grad) == old(val(self.module.weight.grad))'),
     ],
